@@ -1,8 +1,80 @@
+import time
+import numpy as np
 from props.tensor import run_tensor
 LEVEL = 'proof'
+
+# degree-1 homogeneous in (rho0, press) at fixed eps, velocity and geometry: T_ab = rho0 (1 + eps) u_a u_b + p h_ab and every
+# projection of it
+HOMOGENEOUS = ['rho', 'Tdown4', 'Tup4', 'Ttrace', 'rho_n', 'fluxup3_n', 'fluxdown3_n', 'Stressup3_n', 'Stressdown3_n', 'Stresstrace_n',
+               'press_n', 'anisotropic_press_down3_n', 'conserved_D', 'conserved_E', 'conserved_Sdown3', 'conserved_Sup3']
+
+
+def scale_cases(scales=(1e-9, 1e-13, 1e7)):
+    """the textbook stress-energy tensor is linear in (rho0, p): the real AurelCore on the same moving fluid in units in which
+    the densities are tiny (cosmological code units) or huge must give exactly the rescaled tensors.  The generic-data
+    obligations work at O(1) magnitudes; anything in the code that compares a density with an absolute number shows here."""
+    import warnings
+    import aurel
+    import aurel.core as Cm
+    N = 10
+    par = dict(Nx=N, Ny=N, Nz=N, xmin=-1.0, ymin=-0.9, zmin=-1.1, dx=0.2, dy=0.2, dz=0.2)
+    bad, ncmp = [], 0
+    with warnings.catch_warnings():
+        warnings.simplefilter('ignore')
+        fd = aurel.FiniteDifference(par, boundary='no boundary', fd_order=4, verbose=False)
+        x, y, z = fd.x, fd.y, fd.z
+        one = np.ones_like(x)
+        gam = np.array([[1.2 + 0.1 * x * x, 0.05 * y, 0.02 * z], [0.05 * y, 1.1 + 0.1 * z * z, 0.03 * x], [0.02 * z, 0.03 * x, 1.3 + 0.1 * y * y]])
+        vel = np.array([0.2 + 0.05 * y, -0.1 + 0.05 * z, 0.15 * one])
+        W = 1 / np.sqrt(1 - np.einsum('ij...,i...,j...->...', gam, vel, vel))
+
+        def mk(lam, style):
+            rel = aurel.AurelCore(fd, verbose=False)
+            rel.data['gammadown3'] = gam.copy()
+            rel.data['Kdown3'] = np.array([[0.1 * x, 0 * one, 0.02 * z], [0 * one, 0.2 * one, 0 * one], [0.02 * z, 0 * one, 0.3 * y]])
+            rel.data['alpha'] = 1.1 + 0.1 * x
+            rel.data['betaup3'] = np.array([0.1 * x, 0.05 * z, 0.2 * one])
+            rel.data['rho0'] = lam * (1 + 0.1 * np.cos(x))
+            rel.data['press'] = lam * 0.2 * (1 + 0.1 * np.cos(x)) * (1 + 0.3 * np.sin(y))
+            rel.data['eps'] = 0.3 + 0.05 * z
+            rel.data['w_lorentz'] = W.copy()
+            if style == 'tensor':
+                rel.data['velup3'] = vel.copy()
+            else:
+                rel.data['velx'], rel.data['vely'], rel.data['velz'] = vel[0].copy(), vel[1].copy(), vel[2].copy()
+            rel.freeze_data()
+            return rel
+        for style in ('tensor', 'components'):
+            ref = mk(1.0, style)
+            for lam in scales:
+                rel = mk(lam, style)
+                for k in HOMOGENEOUS:
+                    if not hasattr(Cm.AurelCore, k):
+                        continue
+                    try:
+                        a, b = np.asarray(ref[k], dtype=float), np.asarray(rel[k], dtype=float) / lam
+                    except Exception as e:
+                        bad.append(f'{k} (velocity as {style}, densities x {lam:g}): raised {type(e).__name__}: {e}')
+                        continue
+                    ncmp += 1
+                    sc = float(np.max(np.abs(a))) or 1.0
+                    err = float(np.max(np.abs(a - b))) / sc
+                    if not err <= 1e-9:
+                        bad.append(f'{k} (velocity as {style}): with rho0 and press multiplied by {lam:g} the result is not {lam:g} times the original (relative deviation {err:.3g})')
+    return bad, ncmp
+
+
+def scale_obligation(R):
+    t0 = time.time()
+    bad, ncmp = scale_cases()
+    R.bounded.append(dict(function='aurel.core.AurelCore stress-energy keys', bound='one moving fluid on a 10^3 grid, 2 input spellings, densities scaled by 1e-9, 1e-13, 1e7'))
+    R.ob('core.T*:linear in (rho0, press) -- the same fluid in units with tiny or huge densities gives the rescaled tensors', 'Tdown4',
+         'refuted' if bad else ('bounded-ok' if ncmp else 'undecided'), 'bounded-native', time.time() - t0, '; '.join(bad[:4]) or f'{ncmp} comparisons',
+         bad[:6] or None, bounded='3 scales, 2 spellings', replay=lambda o: (lambda b: (bool(b[0]), '; '.join(b[0][:4]) or 'no deviation'))(scale_cases()))
 
 
 def run(R):
     from engine.canary import run_canaries
     run_canaries(R, ('e1',))
+    scale_obligation(R)
     run_tensor(R, 'C09')
